@@ -784,8 +784,13 @@ static void check_order(trial_t *t)
 			/* (with an interval set every operation also owns a timer source whose cancellation must finish
 			 * before the dispose, which delays the done invocation in the same way) */
 			int pending = (a->ninv >= 2 || t->interval) && a->err_done == 0 && b->err_done == 0;
+			/* same mechanism when the descriptor fails (e.g. EPIPE after the reader went away): the stream fails the
+			 * queued operations one after the other, each done is still posted from the operation's dispose, after
+			 * its pending progress deliveries / interval timer; keyed separately */
+			int pending_failed = (a->ninv >= 2 || t->interval) && a->err_done != 0 && a->err_done == b->err_done;
 			snprintf(k, sizeof(k), zero ? "C14:%s:zero-length-op-completes-out-of-order" : canc ? "C14:%s:ops-complete-out-of-order:cancelled-by-stop" :
-					pending ? "C14:%s:ops-complete-out-of-order:earlier-op-still-delivering" : "C14:%s:ops-complete-out-of-order", dn);
+					pending ? "C14:%s:ops-complete-out-of-order:earlier-op-still-delivering" :
+					pending_failed ? "C14:%s:ops-complete-out-of-order:earlier-op-still-delivering:both-failed-alike" : "C14:%s:ops-complete-out-of-order", dn);
 			VIOL(t, k, "stream channel, serial handler queue: %s was submitted before %s, but the later operation's done invocation returned before the earlier one's began", ba, bb);
 			return;
 		}
@@ -961,13 +966,21 @@ static void run_chan_trial(trial_t *t)
 	size_t low = 0, high = SIZE_MAX, mlow = 0, mhigh = SIZE_MAX;
 	int what = 0;
 	k = t->directed ? 0 : vf_rnd_n(r, 100);
-	t->wm_class = k < 12 ? 0 : k < 32 ? 1 : k < 55 ? 2 : k < 85 ? 3 : 4;
+	t->wm_class = k < 12 ? 0 : k < 32 ? 1 : k < 55 ? 2 : k < 82 ? 3 : k < 93 ? 4 : 5;
+	int big_marks = 0;
 	switch (t->wm_class) {
 	case 0: break;
 	case 1: high = draw_high(r); what = 2; break;
 	case 2: low = draw_low(r); what = 1; break;
 	case 3: low = draw_low(r); high = draw_high(r); if (low > high) { size_t x = low; low = high; high = x; } what = 3; break;
-	default: low = high = draw_high(r); what = 3; break;
+	case 4: low = high = draw_high(r); what = 3; break;
+	default:
+		/* marks beyond the library's internal buffer size (1 MiB chunks): data accumulates over several
+		 * buffers below the low water mark, the high water mark is not a multiple of the buffer size */
+		low = (1u << 20) + 1 + vf_rnd_n(r, 3u << 19);
+		high = vf_rnd_n(r, 3) ? low + vf_rnd_n(r, 1u << 20) : low;
+		what = 3; big_marks = 1;
+		break;
 	}
 	int mid_at = vf_rnd_n(r, 8) == 0 ? (int)vf_rnd_range(r, 1, 3) : -1;
 	if (t->directed) mid_at = -1;
@@ -975,6 +988,7 @@ static void run_chan_trial(trial_t *t)
 	size_t minhigh = high;
 	if (mid_at >= 0 && mhigh < minhigh) minhigh = mhigh;
 	t->budget = budget_for(minhigh);
+	if (big_marks && mid_at < 0) t->budget = (size_t)(((uint64_t)(3u << 20) + vf_rnd_n(r, 3u << 20)) * (uint64_t)(vf_opts.scale < 50 ? 50 : vf_opts.scale) / 100);
 	t->iv_class = 0;
 	if (vf_rnd_n(r, 10) < 3 && !t->directed) {
 		static const uint64_t ivs[] = { 100000, 1000000, 3000000, 10000000 };
@@ -990,7 +1004,7 @@ static void run_chan_trial(trial_t *t)
 	size_t wtotal = 0, prefill = 0;
 	if (t->dir == K_READ) {
 		k = vf_rnd_n(r, 100);
-		t->ref_len = k < 3 ? 0 : draw_len(r, t->budget);
+		t->ref_len = k < 3 ? 0 : (big_marks && mid_at < 0) ? t->budget - vf_rnd_n(r, 4096) : draw_len(r, t->budget);
 		t->ref = malloc(t->ref_len ? t->ref_len : 1);
 		fill_coded(t->ref, 0, t->ref_len, t->salt);
 		t->pos0 = (t->transport == TR_FILE && vf_rnd_n(r, 2)) ? (off_t)vf_rnd_n(r, (uint32_t)t->ref_len + 1) : 0;
